@@ -47,8 +47,10 @@ def get_buffer_type(name):
 
 def write_case_file(ctx, fc, gz=False, data=None):
     fmt = FORMATS[fc["fmt"]]
-    path = ctx.path("case" + fmt.suffix + (".gz" if gz else ""))
     data = fc["data"] if data is None else data
+    name = "case" + fmt.suffix + (".gz" if gz else "")
+    # half of the generated files replace an earlier file under the same path (anything remembered per path must not outlive the file)
+    path = ctx.reuse_path(name) if (len(data) + sum(data[:16])) % 2 else ctx.path(name)
     if gz:
         with _gzip.open(path, "wb") as f:
             f.write(data)
